@@ -237,6 +237,16 @@ func checkTplEntryPoints(c *Ctx, src string, vars map[string]string, main string
 			note = "SetDefaultVariables + Evaluate() gives " + g + ", EvaluateWithVariables " + main
 			return ""
 		}
+		// (a') an explicitly passed map is used as it is, also when it is empty, whatever the defaults hold
+		t1b := mustache.NewMustacheTemplate()
+		t1b.SetTemplate(src) // automatic variables on: the defaults get one entry per name ...
+		for k := range t1b.DefaultVariables() {
+			t1b.DefaultVariables()[k] = "DEFAULT" // ... and a value the explicit map does not have
+		}
+		if g := res(t1b.EvaluateWithVariables(own())); g != main {
+			note = "with non-empty default variables EvaluateWithVariables(explicit map) gives " + g + ", without defaults " + main
+			return ""
+		}
 		// (b) tokens instead of text
 		trimmed := strings.Trim(src, " \t\r\n")
 		if trimmed != "" {
